@@ -11,8 +11,14 @@ CLAIMED={
  "C14":("exploration","Seeded sampling of event values and RPC corruptions through the real encoder/decoder pair; input sampling by a simulated faulty RPC, labelled as such.","§3 C14"),
  "C17":("exploration","Seeded sampling of definitions x hostile logs by a simulated hostile contract, real codec/matcher vs a reference written from docs/event.md, panic guard, allocation meter, node-side filter.","§3 C17"),
  "C18":("exploration","Adversarial HTTP client against the real router in a synctest bubble, x map iteration orders; input sampling apart from the map-order dimension.","§3 C18"),
+ "C01":("exploration","Seeded search over share-message sequences, delivery interleavings at database round trips and row orders against one real receiver; ledger oracle with reference keys.","§3 C01"),
+ "C03":("exploration","Seeded search over delivery orders, duplicates, bounded loss and database-round-trip interleavings between n real message stacks; acceptance and convergence oracles.","§3 C03"),
+ "C04":("exploration","Byzantine peer with field mutations against generated receiver database states; real validator verdict vs reference predicate; no-effect-on-reject via database hash.","§3 C04"),
 }
 NOTES={
+ "C01":"message-granularity reading of 'exactly when'; pgsim fidelity (conformance run); trusted-dealer eon keys",
+ "C03":"simnet models gossipsub's contract; pgsim fidelity; core flavour only so far",
+ "C04":"shlib pairing checks are ground truth; pgsim fidelity",
  "C14":"Tendermint transports attributes as opaque strings; keyper-table effects are covered by World B checks once built",
  "C17":"eth_getLogs filter semantics modelled in ref.FilterPasses; allocation bound 8MiB+1KiB/byte",
  "C18":"database-backed read-only handlers are exercised for routing only (nil pool)",
